@@ -326,11 +326,11 @@ class SymmetryTranslator:
                 ):
                     ret[ComparisonOperator.NotEqual].append((lit, atom.term, guard.term))
                 elif (lit.sign == Sign.NoSign and guard.comparison == ComparisonOperator.LessThan) or (
-                    lit.sign == Sign.Negation and guard.comparison == ComparisonOperator.GreaterThan
+                    lit.sign == Sign.Negation and guard.comparison == ComparisonOperator.GreaterEqual
                 ):
                     ret[ComparisonOperator.LessThan].append((lit, atom.term, guard.term))
                 elif (lit.sign == Sign.NoSign and guard.comparison == ComparisonOperator.GreaterThan) or (
-                    lit.sign == Sign.Negation and guard.comparison == ComparisonOperator.LessThan
+                    lit.sign == Sign.Negation and guard.comparison == ComparisonOperator.LessEqual
                 ):
                     ret[ComparisonOperator.LessThan].append((lit, guard.term, atom.term))
         return ret
